@@ -1498,6 +1498,11 @@ class BootstrapElectionModel(BaseElectionModel):
         n_train = reporting_units.shape[0]
         n_test = nonreporting_units.shape[0]
 
+        # we cannot know the county classification of unexpected units, so (as in _get_reporting_aggregate_votes)
+        # they are not part of county classification aggregates
+        if "county_classification" in aggregate:
+            unexpected_units = unexpected_units.iloc[0:0]
+
         all_units = pd.concat([reporting_units, nonreporting_units, unexpected_units], axis=0)
 
         # if we want to aggregate to something that isn't postal_code we need to generate a temporary
@@ -1645,6 +1650,10 @@ class BootstrapElectionModel(BaseElectionModel):
         """
         n_train = reporting_units.shape[0]
         n_test = nonreporting_units.shape[0]
+
+        # see get_aggregate_predictions: unexpected units have no county classification
+        if "county_classification" in aggregate:
+            unexpected_units = unexpected_units.iloc[0:0]
 
         all_units = pd.concat([reporting_units, nonreporting_units, unexpected_units], axis=0)
 
